@@ -835,8 +835,9 @@ def propagate_state_snapshots(func):
             loads = [n for n in all_uses if isinstance(n.ctx, ast.Load)]
             if len(stores) != 1 or not loads or any(id(n) not in in_tests for n in loads):
                 continue
-            if any(isinstance(c, ast.Call) for t in tests for c in ast.walk(t)):
-                continue            # a call in a test could change the state before a later test reads it
+            if any(isinstance(c, ast.Call) and not (isinstance(c.func, ast.Name) and c.func.id in (
+                    'range', 'len', 'frozenset', 'set', 'tuple', 'list', 'isinstance', 'int', 'bool')) for t in tests for c in ast.walk(t)):
+                continue            # a call in a test could change the state before a later test reads it (pure builtins cannot)
             sub = _Subst({x: st.value}, {})
             node = chain
             while True:
@@ -1097,6 +1098,8 @@ def _stored_names(node):
             out.add(x.id)
         elif isinstance(x, ast.ExceptHandler) and x.name:
             out.add(x.name)
+        elif isinstance(x, ast.ClassDef) and x is not node:
+            out.add(x.name)
     return out
 
 
@@ -1169,6 +1172,12 @@ class _Subst(ast.NodeTransformer):
         return node
 
     def visit_ExceptHandler(self, node):
+        self.generic_visit(node)
+        if node.name in self.renames:
+            node.name = self.renames[node.name]
+        return node
+
+    def visit_ClassDef(self, node):
         self.generic_visit(node)
         if node.name in self.renames:
             node.name = self.renames[node.name]
@@ -1461,14 +1470,22 @@ def _display(e):
     if isinstance(e, ast.UnaryOp):
         return _display(e.operand)
     if isinstance(e, ast.Call) and not e.keywords and isinstance(e.func, (ast.Name, ast.Attribute)) and \
-            src(e.func).split('.')[-1] in ('methodcaller', 'attrgetter', 'itemgetter', 'frozenset') and all(_display(a) for a in e.args):
+            src(e.func).split('.')[-1] in ('methodcaller', 'attrgetter', 'itemgetter', 'frozenset', 'Struct') and all(_display(a) for a in e.args):
         return True         # value objects built from constants
+    if isinstance(e, ast.Call) and not e.keywords and isinstance(e.func, (ast.Name, ast.Attribute)) and \
+            src(e.func).split('.')[-1] in ('sizeof', 'calcsize') and len(e.args) == 1 and isinstance(e.args[0], (ast.Name, ast.Attribute, ast.Constant)):
+        return True         # the size of a fixed layout
+    if isinstance(e, ast.Lambda) and not e.args.defaults and not e.args.kw_defaults:
+        # a closed function value: its body names only its own parameters (and what hangs off them)
+        own = {a.arg for a in ast.walk(e.args) if isinstance(a, ast.arg)}
+        return all(x.id in own for x in ast.walk(e.body) if isinstance(x, ast.Name))
     return False
 
 
 class _Accessors(ast.NodeTransformer):
     """operator.methodcaller('m', *a)(obj) -> obj.m(*a); operator.attrgetter('a')(obj) -> obj.a"""
     count = 0
+    needs_struct = False
 
     def visit_Call(self, node):
         self.generic_visit(node)
@@ -1484,7 +1501,242 @@ class _Accessors(ast.NodeTransformer):
             if kind == 'attrgetter' and len(f.args) == 1:
                 _Accessors.count += 1
                 return ast.copy_location(ast.Attribute(value=node.args[0], attr=f.args[0].value, ctx=ast.Load()), node)
+            if kind == 'attrgetter' and all(isinstance(a, ast.Constant) and isinstance(a.value, str) and a.value.isidentifier() for a in f.args) \
+                    and isinstance(node.args[0], (ast.Name, ast.Attribute)):
+                # attrgetter('a', 'b')(obj) -> (obj.a, obj.b)
+                _Accessors.count += 1
+                return ast.copy_location(ast.Tuple(elts=[ast.Attribute(value=copy.deepcopy(node.args[0]), attr=a.value, ctx=ast.Load())
+                                                         for a in f.args], ctx=ast.Load()), node)
+        # (A if c else B)(args) -> A(args) if c else B(args) for accessor objects (then each arm is rewritten as above)
+        if isinstance(f, ast.IfExp) and not node.keywords and all(
+                isinstance(x, ast.Call) and isinstance(x.func, (ast.Name, ast.Attribute)) and src(x.func).split('.')[-1] in (
+                    'methodcaller', 'attrgetter', 'itemgetter') for x in (f.body, f.orelse)) \
+                and all(isinstance(a, (ast.Name, ast.Attribute, ast.Constant)) for a in node.args):
+            new = ast.IfExp(test=f.test, body=ast.Call(func=f.body, args=copy.deepcopy(node.args), keywords=[]),
+                            orelse=ast.Call(func=f.orelse, args=copy.deepcopy(node.args), keywords=[]))
+            ast.copy_location(new, node)
+            ast.fix_missing_locations(new)
+            return self.visit(new)
+        # struct.Struct(FMT).unpack_from(buf, off) -> struct.unpack_from(FMT, buf, off), likewise pack / pack_into / unpack /
+        # iter_unpack; a table of compiled formats {k: Struct(F1), ..}[key].m(..) -> struct.m({k: F1, ..}[key], ..)
+        if isinstance(f, ast.Attribute) and f.attr in ('pack', 'unpack', 'unpack_from', 'pack_into', 'iter_unpack') and not node.keywords:
+            fmt = _struct_format(f.value)
+            if fmt is not None:
+                _Accessors.count += 1
+                _Accessors.needs_struct = True
+                return ast.copy_location(ast.Call(func=ast.Attribute(value=ast.Name(id='struct', ctx=ast.Load()), attr=f.attr, ctx=ast.Load()),
+                                                  args=[fmt] + list(node.args), keywords=[]), node)
         return node
+
+    def visit_Attribute(self, node):
+        self.generic_visit(node)
+        if node.attr == 'size' and isinstance(node.ctx, ast.Load):
+            fmt = _struct_format(node.value)
+            if fmt is not None:
+                _Accessors.count += 1
+                _Accessors.needs_struct = True
+                return ast.copy_location(ast.Call(func=ast.Attribute(value=ast.Name(id='struct', ctx=ast.Load()), attr='calcsize', ctx=ast.Load()),
+                                                  args=[fmt], keywords=[]), node)
+        return node
+
+
+def _struct_format(e):
+    """the format expression of `Struct(FMT)` or of `{k: Struct(F), ...}[key]` (as `{k: F, ...}[key]`), else None"""
+    def is_struct(x):
+        return isinstance(x, ast.Call) and isinstance(x.func, (ast.Name, ast.Attribute)) and src(x.func).split('.')[-1] == 'Struct' \
+            and len(x.args) == 1 and not x.keywords
+    if is_struct(e):
+        return e.args[0]
+    if isinstance(e, ast.Subscript) and isinstance(e.value, ast.Dict) and e.value.values and all(is_struct(v) for v in e.value.values) \
+            and all(k is not None for k in e.value.keys):
+        return ast.Subscript(value=ast.Dict(keys=list(e.value.keys), values=[v.args[0] for v in e.value.values]), slice=e.slice, ctx=ast.Load())
+    return None
+
+
+def table_get_to_chain(func):
+    """`h = {k1: f1, k2: f2}.get(key)` directly followed by `if h is not None: BODY` (h only called, as `h(args)`, inside BODY)  ->
+    `if key == k1: BODY[h := f1] elif key == k2: BODY[h := f2]`: the same calls under the same conditions, with no function value
+    carried in a local.  Lambdas applied to plain arguments are replaced by their bodies.  Returns the number of tables rewritten."""
+    count = 0
+
+    def visit(stmts):
+        nonlocal count
+        j = 0
+        while j < len(stmts):
+            st = stmts[j]
+            for fld in ('body', 'orelse', 'finalbody'):
+                sub = getattr(st, fld, None)
+                if isinstance(sub, list) and sub and isinstance(sub[0], ast.stmt) and not isinstance(st, (ast.FunctionDef, ast.ClassDef)):
+                    visit(sub)
+            for h in getattr(st, 'handlers', []) or []:
+                visit(h.body)
+            nxt = stmts[j + 1] if j + 1 < len(stmts) else None
+            if (isinstance(st, ast.Assign) and len(st.targets) == 1 and isinstance(st.targets[0], ast.Name)
+                    and isinstance(st.value, ast.Call) and isinstance(st.value.func, ast.Attribute) and st.value.func.attr == 'get'
+                    and isinstance(st.value.func.value, ast.Dict) and not st.value.keywords
+                    and (len(st.value.args) == 1 or (len(st.value.args) == 2 and isinstance(st.value.args[1], ast.Constant)
+                                                     and st.value.args[1].value is None))
+                    and isinstance(nxt, ast.If) and not nxt.orelse):
+                name, d, key = st.targets[0].id, st.value.func.value, st.value.args[0]
+                t = nxt.test
+                guard_ok = (isinstance(t, ast.Name) and t.id == name) or (
+                    isinstance(t, ast.Compare) and len(t.ops) == 1 and isinstance(t.ops[0], ast.IsNot) and isinstance(t.left, ast.Name)
+                    and t.left.id == name and isinstance(t.comparators[0], ast.Constant) and t.comparators[0].value is None)
+                vals_ok = d.keys and all(k is not None for k in d.keys) and all(isinstance(v, (ast.Attribute, ast.Name, ast.Lambda)) for v in d.values)
+                key_ok = isinstance(key, (ast.Name, ast.Attribute)) and not any(isinstance(x, ast.Call) for x in ast.walk(key))
+                uses = [x for x in ast.walk(func) if isinstance(x, ast.Name) and x.id == name]
+                called = [x for b in nxt.body for x in ast.walk(b) if isinstance(x, ast.Call) and isinstance(x.func, ast.Name) and x.func.id == name]
+                in_test = [x for x in ast.walk(nxt.test) if isinstance(x, ast.Name) and x.id == name]
+                if guard_ok and vals_ok and key_ok and called and len(uses) == 1 + len(in_test) + len(called):
+                    chain = None
+                    for k, v in reversed(list(zip(d.keys, d.values))):
+                        body = copy.deepcopy(nxt.body)
+
+                        class R(ast.NodeTransformer):
+                            def visit_Call(s_, node):
+                                s_.generic_visit(node)
+                                if isinstance(node.func, ast.Name) and node.func.id == name:
+                                    if isinstance(v, ast.Lambda) and not node.keywords and len(v.args.args) == len(node.args) \
+                                            and not v.args.vararg and not v.args.kwarg and not v.args.kwonlyargs \
+                                            and all(isinstance(a, (ast.Name, ast.Attribute, ast.Constant)) for a in node.args):
+                                        return _Subst({p.arg: a for p, a in zip(v.args.args, node.args)}, {}).visit(copy.deepcopy(v.body))
+                                    node.func = copy.deepcopy(v)
+                                return node
+                        body = [R().visit(b) for b in body]
+                        test = ast.Compare(left=copy.deepcopy(key), ops=[ast.Eq()], comparators=[copy.deepcopy(k)])
+                        chain = ast.If(test=test, body=body, orelse=[chain] if chain is not None else [])
+                    ast.copy_location(chain, st)
+                    ast.fix_missing_locations(chain)
+                    stmts[j:j + 2] = [chain]
+                    count += 1
+                    continue
+            j += 1
+    visit(func.body)
+    return count
+
+
+def inline_bound_method_locals(func):
+    """`f = obj.a.m` (bound once, an attribute chain over a name) whose only use is being called - `f(x)` ... `f(y)` - is the method
+    call `obj.a.m(x)` ... `obj.a.m(y)` it saves the lookups of, as long as nothing in the function can change the chain in between
+    (no store to one of its attributes, no rebinding of its base).  Returns the number of locals inlined."""
+    stores, loads, calls = {}, {}, {}
+    for x in ast.walk(func):
+        if isinstance(x, ast.Name):
+            (stores if isinstance(x.ctx, (ast.Store, ast.Del)) else loads).setdefault(x.id, []).append(x)
+        if isinstance(x, ast.Call) and isinstance(x.func, ast.Name):
+            calls.setdefault(x.func.id, []).append(x)
+    params = {a.arg for a in ast.walk(func.args) if isinstance(a, ast.arg)}
+    attr_stores = {x.attr for x in ast.walk(func) if isinstance(x, ast.Attribute) and isinstance(x.ctx, (ast.Store, ast.Del))}
+    n = 0
+
+    def chain(e):
+        names = []
+        while isinstance(e, ast.Attribute):
+            names.append(e.attr)
+            e = e.value
+        return (e.id, names) if isinstance(e, ast.Name) and names else None
+
+    def visit(stmts):
+        nonlocal n
+        out = []
+        for st in stmts:
+            for fld in ('body', 'orelse', 'finalbody'):
+                sub = getattr(st, fld, None)
+                if isinstance(sub, list) and sub and isinstance(sub[0], ast.stmt):
+                    setattr(st, fld, visit(sub) or [ast.Pass()])
+            for h in getattr(st, 'handlers', []) or []:
+                h.body = visit(h.body) or [ast.Pass()]
+            if isinstance(st, ast.Assign) and len(st.targets) == 1 and isinstance(st.targets[0], ast.Name):
+                name = st.targets[0].id
+                ch = chain(st.value)
+                if ch is not None and name not in params and len(stores.get(name, [])) == 1 and calls.get(name) \
+                        and len(loads.get(name, [])) == len(calls[name]) and not (set(ch[1]) & attr_stores) \
+                        and (ch[0] in params or not stores.get(ch[0])) and ch[0] != name:
+                    for c in calls[name]:
+                        c.func = copy.deepcopy(st.value)
+                    n += 1
+                    continue
+            out.append(st)
+        return out
+    func.body = visit(func.body)
+    if n:
+        ast.fix_missing_locations(func)
+    return n
+
+
+def getattr_tables(func):
+    """A dispatch table of method *names* read with getattr - `getattr(obj, {K: 'm', ..}[key])`, or `name = {K: 'm', ..}[key]` followed
+    by `getattr(obj, name)` - is the table of bound methods the code base writes: `_t = {K: obj.m, ..}` ... `_t[key]`.  (A missing key
+    raises KeyError at the same lookup; creating a bound method cannot fail for a method that exists, and a name that is not an
+    attribute is reported by the rules that read the table.)  Returns the number of tables rewritten."""
+    count = [0]
+
+    def names_table(e):
+        return isinstance(e, ast.Subscript) and isinstance(e.value, ast.Dict) and e.value.values and all(
+            isinstance(v, ast.Constant) and isinstance(v.value, str) and v.value.isidentifier() for v in e.value.values) and all(
+            k is not None for k in e.value.keys)
+
+    def bound_table(obj, sub):
+        return ast.Dict(keys=list(sub.value.keys), values=[ast.Attribute(value=copy.deepcopy(obj), attr=v.value, ctx=ast.Load())
+                                                           for v in sub.value.values])
+    stores = {}
+    for x in ast.walk(func):
+        if isinstance(x, ast.Name) and isinstance(x.ctx, (ast.Store, ast.Del)):
+            stores[x.id] = stores.get(x.id, 0) + 1
+    # names bound once to a table lookup and read by getattr(obj, name)
+    via_name = {}
+    for x in ast.walk(func):
+        if isinstance(x, ast.Call) and isinstance(x.func, ast.Name) and x.func.id == 'getattr' and len(x.args) == 2 and not x.keywords \
+                and isinstance(x.args[1], ast.Name) and isinstance(x.args[0], ast.Name) and stores.get(x.args[1].id) == 1:
+            via_name.setdefault(x.args[1].id, []).append(x)
+
+    def visit(stmts):
+        out = []
+        for st in stmts:
+            for fld in ('body', 'orelse', 'finalbody'):
+                sub = getattr(st, fld, None)
+                if isinstance(sub, list) and sub and isinstance(sub[0], ast.stmt):
+                    setattr(st, fld, visit(sub))
+            for h in getattr(st, 'handlers', []) or []:
+                h.body = visit(h.body)
+            pre = []
+            if isinstance(st, ast.Assign) and len(st.targets) == 1 and isinstance(st.targets[0], ast.Name) and st.targets[0].id in via_name \
+                    and names_table(st.value):
+                calls = via_name[st.targets[0].id]
+                objs = {ast.dump(c.args[0]) for c in calls}
+                if len(objs) == 1:
+                    count[0] += 1
+                    tname = '_handler_dict_%d' % count[0]
+                    pre.append(ast.Assign(targets=[ast.Name(id=tname, ctx=ast.Store())], value=bound_table(calls[0].args[0], st.value), type_comment=None))
+                    st.value = ast.Subscript(value=ast.Name(id=tname, ctx=ast.Load()), slice=st.value.slice, ctx=ast.Load())
+                    for c in calls:
+                        c.func = ast.Name(id='_same_', ctx=ast.Load())      # marker, replaced below
+            else:
+                own = [x for x in (ast.walk(st) if not isinstance(st, (ast.If, ast.For, ast.While, ast.Try, ast.With, ast.FunctionDef)) else [])
+                       if isinstance(x, ast.Call) and isinstance(x.func, ast.Name) and x.func.id == 'getattr' and len(x.args) == 2
+                       and not x.keywords and names_table(x.args[1]) and isinstance(x.args[0], ast.Name)]
+                for c in own:
+                    count[0] += 1
+                    tname = '_handler_dict_%d' % count[0]
+                    pre.append(ast.Assign(targets=[ast.Name(id=tname, ctx=ast.Store())], value=bound_table(c.args[0], c.args[1]), type_comment=None))
+                    c.func = ast.Name(id='_same_', ctx=ast.Load())
+                    c.args = [ast.Subscript(value=ast.Name(id=tname, ctx=ast.Load()), slice=c.args[1].slice, ctx=ast.Load())]
+            for p_ in pre:
+                ast.copy_location(p_, st)
+                ast.fix_missing_locations(p_)
+            out += pre + [st]
+        return out
+    func.body = visit(func.body)
+    if count[0]:
+        class R(ast.NodeTransformer):
+            def visit_Call(s_, node):
+                s_.generic_visit(node)
+                if isinstance(node.func, ast.Name) and node.func.id == '_same_':
+                    return node.args[-1]
+                return node
+        R().visit(func)
+        ast.fix_missing_locations(func)
+    return count[0]
 
 
 def erase_new_records(prog, known, attr_reads=None):
@@ -1858,16 +2110,30 @@ class Inliner:
                 starred = {id(x.value) for x in ast.walk(n) if isinstance(x, ast.Starred) and isinstance(x.value, ast.Name) and x.value.id == va}
                 if not uses or any(id(u) not in starred for u in uses):
                     continue
-            if any(src(d) not in ('staticmethod', 'classmethod') for d in n.decorator_list):
+            # a local class without methods (a record / ctypes layout) is data the helper builds; a memoised factory of such a class
+            # (`@lru_cache` ... `class L: _fields_ = ..` ... `return L`) is that factory: the cached value is a class, which nobody mutates
+            local_classes = {x.name for x in ast.walk(n) if isinstance(x, ast.ClassDef) and not any(
+                isinstance(y, (ast.FunctionDef, ast.AsyncFunctionDef, ast.ClassDef, ast.Lambda)) and y is not x for y in ast.walk(x))}
+            decos = [src(d.func if isinstance(d, ast.Call) else d).split('.')[-1] for d in n.decorator_list]
+            memo = [d for d in decos if d in ('lru_cache', 'cache')]
+            if any(d not in ('staticmethod', 'classmethod', 'lru_cache', 'cache') for d in decos):
                 continue
+            if memo:
+                rets = [x for x in walk_no_nested(n) if isinstance(x, ast.Return)]
+                if not rets or not all(isinstance(r.value, ast.Name) and r.value.id in local_classes for r in rets):
+                    continue
             bad = False
             for x in walk_no_nested(n):
                 if isinstance(x, (ast.Yield, ast.YieldFrom, ast.Await, ast.Global, ast.Nonlocal)):
                     bad = True
-                if x is not n and isinstance(x, (ast.FunctionDef, ast.ClassDef, ast.AsyncFunctionDef)):
+                if x is not n and isinstance(x, (ast.FunctionDef, ast.AsyncFunctionDef)):
+                    bad = True
+                if x is not n and isinstance(x, ast.ClassDef) and x.name not in local_classes:
                     bad = True
             for x in ast.walk(n):
-                if x is not n and isinstance(x, (ast.FunctionDef, ast.ClassDef, ast.AsyncFunctionDef)):
+                if x is not n and isinstance(x, (ast.FunctionDef, ast.AsyncFunctionDef)):
+                    bad = True
+                if x is not n and isinstance(x, ast.ClassDef) and x.name not in local_classes:
                     bad = True
             if bad:
                 continue
@@ -2198,8 +2464,22 @@ class Inliner:
                     k = unroll_literal_loops(fi.node)
                     if k:
                         self.report.setdefault('unrolled_literal_loops', {})[q] = self.report.get('unrolled_literal_loops', {}).get(q, 0) + k
+                    k = getattr_tables(fi.node)
+                    if k:
+                        self.report.setdefault('getattr_tables', {})[q] = k
+                    k = table_get_to_chain(fi.node)
+                    if k:
+                        self.report.setdefault('table_get_chains', {})[q] = k
+                    _Accessors.needs_struct = False
                     _Accessors().visit(fi.node)
                     ast.fix_missing_locations(fi.node)
+                    if _Accessors.needs_struct:
+                        tree = fi.module.tree
+                        if not any(isinstance(st, ast.Import) and any(a.name == 'struct' and a.asname is None for a in st.names) for st in tree.body):
+                            k = 1 if tree.body and isinstance(tree.body[0], ast.Expr) and isinstance(tree.body[0].value, ast.Constant) else 0
+                            while k < len(tree.body) and isinstance(tree.body[k], ast.ImportFrom) and tree.body[k].module == '__future__':
+                                k += 1
+                            tree.body.insert(k, ast.fix_missing_locations(ast.Import(names=[ast.alias(name='struct', asname=None)])))
             prog.reindex()
         cands = self.candidates()
         self.report['condition_locals'] = {}
@@ -2302,6 +2582,9 @@ class Inliner:
                 k = beta_reduce(fi.node)
                 if k:
                     self.report['lambda_applications'][q] = k
+                k = inline_bound_method_locals(fi.node)
+                if k:
+                    self.report.setdefault('bound_method_locals', {})[q] = k
                 k = counting_whiles_to_for(fi.node)
                 if k:
                     self.report['counting_loops'][q] = k
